@@ -209,7 +209,7 @@ def tlc(work, module, cfg, timeout=600, workers=1, extra=None, consts=None, heap
         with open(os.path.join(sdir, runmod + ".tla"), "w") as f:
             f.write("---- MODULE %s ----\nEXTENDS %s\n%s\n====\n" % (runmod, module, "\n".join(defs)))
     meta = os.path.join(sdir, "meta")
-    cmd = ["java", "-XX:+UseParallelGC", "-Xmx" + heap, "-Xss512m"]
+    cmd = ["java", "-XX:+UseParallelGC", "-Xmx" + heap, "-Xss512m", "-Dfile.encoding=UTF-8"]      # (strings outside ASCII are printed as they are, not as "?")
     if jvm:
         cmd += jvm
     cmd += ["-cp", TLAJAR, "tlc2.TLC", "-metadir", meta, "-workers", str(workers), "-config", cfg]
@@ -226,7 +226,7 @@ def tlc(work, module, cfg, timeout=600, workers=1, extra=None, consts=None, heap
                 p = subprocess.run(cmd, cwd=sdir, stdout=fo, stderr=subprocess.STDOUT, timeout=timeout)
             # keep only non-case lines in memory
             keep = []
-            with open(to_file, "r", errors="replace") as fi:
+            with open(to_file, "r", encoding="utf-8", errors="replace") as fi:
                 for l in fi:
                     if not l.startswith("@@"):
                         keep.append(l.rstrip("\n"))
@@ -269,7 +269,7 @@ def unq(l):
 
 def tagged_file(path, tag):
     """Iterate payloads of lines `"@@TAG payload"` (TLC-quoted) or `@@TAG payload` in a file."""
-    with open(path, "r", errors="replace") as f:
+    with open(path, "r", encoding="utf-8", errors="replace") as f:
         for l in f:
             l = unq(l.rstrip("\n"))
             if l.startswith(tag):
